@@ -4,6 +4,7 @@ import (
 	"fmt"
 	"net"
 	"strconv"
+	"strings"
 
 	"verifharness/hlib"
 )
@@ -349,7 +350,9 @@ func genSpec(seed int64, i int, wire int) *Spec {
 		cand = append(cand, "203.0.113.9")
 		ci := CaseIn{Entry: 2 + k%2, Target: cand[r.Intn(len(cand))], TClass: "wire-arp"}
 		if ci.Entry == 3 {
-			ci.TClass = "wire-icmp"
+			// every command of the ip-level family in turn (no random draw: the rest of the configuration stays)
+			ci.Cmd = IPLevelCommands[(i+k/2)%len(IPLevelCommands)]
+			ci.TClass = "wire-" + strings.Fields(ci.Cmd)[0]
 		}
 		combo := r.Intn(8)
 		if combo&1 != 0 {
